@@ -21,3 +21,17 @@ def f14_rem_uint_width(case, impl, model, spec):
     r = abs(n) % d
     r = r if n >= 0 else -r
     return not (-(1 << (64 * R - 1)) <= r < (1 << (64 * R - 1)))
+
+
+def f16_boxed_ct_select_precision(case, impl, model, spec):
+    """F16: ConstantTimeSelect for BoxedUint (ct_select / ct_assign / ct_swap) on operands of different precision:
+    release builds loop over the limbs of the first operand only (truncated operand, or for ct_swap a mixture of
+    both operands, or an index panic when the second operand is shorter); debug builds hit a debug_assert.
+    Matches exactly: the two boxed operands have different limb counts, the implementation behaves as the
+    faithful model predicts (impl == model) and that differs from the documented result (spec)."""
+    import re
+    if not re.fullmatch(r'boxed\.(select(\.assign)?|swap)', case.rop):
+        return False
+    if len(case.args) != 3 or len(case.args[0]) == len(case.args[1]):
+        return False
+    return impl == model and impl != spec
